@@ -100,6 +100,9 @@ def run(rep, br, proofs, rng, tier):
              "m := import(\"m2\")\nreturn m.bad()\n",
              "v := import(\"vmod\")\nreturn [v.k, v.name, v.pi, v.flag, v.ch, v.raw, v.u, v.nothing, v.inc(1), v.ns.triple(7), v.ns.depth.inc(1), v.ns.n, v.arr[0](2), v.arr[1], v.arr[2][0](3), v.sm.triple(5)]\n",
              "v := import(\"vmod\")\nf := func() { w := import(\"vmod\"); return w.ns.triple(2) + v.arr[2][0](1) }\nreturn f()\n",
+             # values without a native encoding (gob fallback), several of one Go type in one container
+             "g := import(\"gmod\")\nreturn [string(g.errA), string(g.errB), string(g.rt), string(g.t1), string(g.t2), g.n, string(g.errs.x), string(g.errs.y), string(g.errs.z), string(g.times[0]), string(g.times[2]), string(g.mixed.e), string(g.mixed.t), string(g.mixed.r), string(g.mixed.m.e1), string(g.mixed.m.e2)]\n",
+             "g := import(\"gmod\")\nf := func() { try { throw g.errs.y } catch e { return [isError(e, g.errB), string(e)] } }\nreturn [f(), g.t1 == g.times[0], g.t2 == g.t1]\n",
              "f := func() { return func() { return [1][5] } }\nreturn f()()\n",
              # errors whose position is the very first or the very last byte of a file, in the main file and in imported ones
              "throw \"boom\"\n", "[1][5]\n", "[1][5]", "x := 1\nimport(\"m3\")\n", "import(\"m3\")", "y := import(\"m1\")\nimport(\"m4\")",
